@@ -1295,8 +1295,8 @@ impl SecureMemoryPool {
         // due to RefCell not being Sync. Thread-local caches will be cleared
         // when threads exit or when they access the cache and find it should be cleared.
 
-        // Clear allocation tracking
-        self.active_allocations.clear();
+        // The allocation tracking is kept: it describes the chunks that are handed out, and
+        // their release is validated against it
 
         Ok(())
     }
